@@ -4,6 +4,9 @@ import BigtoolsModel.Sweep
 import BigtoolsModel.FView
 import BigtoolsModel.IndexerFix
 import BigtoolsModel.Chunker
+import BigtoolsModel.SummaryFold
+import BigtoolsModel.BedSummary
+import BigtoolsModel.Stats2
 /-! The arithmetic and the branch conditions of the two zoom tilers (`process_val_zoom` in bigwigwrite.rs and
     bigbedwrite.rs), of the two coverage sweeps (the summary sweep in `process_val`, the zoom sweep in `process_val_zoom`),
     of the section cut and of the variable-step / fixed-step decoders are REGENERATED from the Rust source on every run
@@ -403,3 +406,123 @@ theorem gen_chunker (ls : List Nat) (chunks : Nat) : splitGen ls chunks = split 
   simp only [(gen_ch_atoms _ _ _ _ _).1, (gen_ch_atoms _ _ _ _ _).2.1, hl]
 
 end CH
+
+/-! ### Summary statistics: what one value / one coverage piece adds, and where the running extrema start -/
+
+namespace SF
+
+/-- `process_val` of the bigWig writers on one value, assembled from the source's update expressions. The running
+    minimum / maximum start from the constants the source names (`gen_extrema_start`: the largest / smallest finite `f64`,
+    which every value is below / above — the model's `none`). -/
+def stepGen (r : Run) (x : Val) : Run :=
+  let l : Int := (len x : Nat)
+  { items := r.items + 1, bases := r.bases + (Gen.ws_bases_add l x.v 0 0).toNat,
+    mn := match r.mn with | none => some x.v | some m => some (Gen.ws_min l x.v m 0),
+    mx := match r.mx with | none => some x.v | some m => some (Gen.ws_max l x.v 0 m),
+    sum := r.sum + Gen.ws_sum_add l x.v 0 0, sumsq := r.sumsq + Gen.ws_sumsq_add l x.v 0 0 }
+
+theorem gen_wig_summary_atoms (l v a b : Int) :
+    Gen.ws_bases_add l v a b = l ∧ Gen.ws_sum_add l v a b = l * v ∧ Gen.ws_sumsq_add l v a b = l * v * v ∧
+    Gen.ws_min l v a b = min a v ∧ Gen.ws_max l v a b = max b v := by
+  delta Gen.ws_bases_add Gen.ws_sum_add Gen.ws_sumsq_add Gen.ws_min Gen.ws_max
+  refine ⟨?_, ?_, ?_, ?_, ?_⟩ <;> first | rfl | omega | grind
+
+/-- **bigWig summary.** One step of the summary fold with the source's expressions is the model's `step` — the fold
+    `C06_wig_chromosome_summary` and `C06_wig_total_summary` are about. -/
+theorem gen_wig_summary_step (r : Run) (x : Val) : stepGen r x = step r x := by
+  have h := fun a b => gen_wig_summary_atoms ((len x : Nat) : Int) x.v a b
+  unfold stepGen step
+  simp only [(h _ _).1, (h _ _).2.1, (h _ _).2.2.1, (h _ _).2.2.2.1, (h _ _).2.2.2.2, Int.toNat_natCast]
+  cases r.mn <;> cases r.mx <;> rfl
+
+/-- the running extrema of both bigWig writers (single pass and two pass) and of the per-region statistics start from the
+    largest finite `f64` (minimum) and the smallest (maximum) -/
+theorem gen_extrema_start :
+    Gen.ws_min_init_full = .posMax ∧ Gen.ws_max_init_full = .negMax ∧ Gen.ws_min_init_nozoom = .posMax ∧
+    Gen.ws_max_init_nozoom = .negMax ∧ Gen.st_min_init = .posMax ∧ Gen.st_max_init = .negMax := by
+  delta Gen.ws_min_init_full Gen.ws_max_init_full Gen.ws_min_init_nozoom Gen.ws_max_init_nozoom Gen.st_min_init Gen.st_max_init
+  refine ⟨?_, ?_, ?_, ?_, ?_, ?_⟩ <;> first | rfl | decide
+
+end SF
+
+namespace BSUM
+open SW
+
+/-- the summary update of the bigBed writer for one flushed piece of positive length, as the source writes it: the first
+    piece seeds the summary, later ones are added -/
+def addSeg (st : Option Sm) (g : Seg) : Option Sm :=
+  let len := g.e - g.s
+  match st with
+  | none => some ⟨len, len * g.d, len * g.d * g.d, g.d, g.d⟩
+  | some t => some ⟨t.bases + len, t.sum + len * g.d, t.sumsq + len * g.d * g.d, min t.mn g.d, max t.mx g.d⟩
+
+/-- … the same, assembled from the expressions regenerated from the source -/
+def addSegGen (st : Option Sm) (g : Seg) : Option Sm :=
+  let l : Int := ((g.e - g.s : Nat) : Int)
+  let d : Int := (g.d : Nat)
+  match st with
+  | none => some ⟨(Gen.bs_first_bases l d 0 0).toNat, (Gen.bs_first_sum l d 0 0).toNat, (Gen.bs_first_sumsq l d 0 0).toNat,
+                  (Gen.bs_first_min l d 0 0).toNat, (Gen.bs_first_max l d 0 0).toNat⟩
+  | some t => some ⟨t.bases + (Gen.bs_bases_add l d 0 0).toNat, t.sum + (Gen.bs_sum_add l d 0 0).toNat,
+                    t.sumsq + (Gen.bs_sumsq_add l d 0 0).toNat, (Gen.bs_min l d t.mn 0).toNat, (Gen.bs_max l d 0 t.mx).toNat⟩
+
+theorem gen_bed_summary_atoms (l v a b : Int) :
+    Gen.bs_first_bases l v a b = l ∧ Gen.bs_first_sum l v a b = l * v ∧ Gen.bs_first_sumsq l v a b = l * v * v ∧
+    Gen.bs_first_min l v a b = v ∧ Gen.bs_first_max l v a b = v ∧
+    Gen.bs_bases_add l v a b = l ∧ Gen.bs_sum_add l v a b = l * v ∧ Gen.bs_sumsq_add l v a b = l * v * v ∧
+    Gen.bs_min l v a b = min a v ∧ Gen.bs_max l v a b = max b v := by
+  delta Gen.bs_first_bases Gen.bs_first_sum Gen.bs_first_sumsq Gen.bs_first_min Gen.bs_first_max Gen.bs_bases_add Gen.bs_sum_add
+    Gen.bs_sumsq_add Gen.bs_min Gen.bs_max
+  refine ⟨?_, ?_, ?_, ?_, ?_, ?_, ?_, ?_, ?_, ?_⟩ <;> first | rfl | omega | grind
+
+theorem toNat_mul2 (a b : Nat) : ((a : Int) * (b : Int)).toNat = a * b := by
+  rw [← Int.natCast_mul]; exact Int.toNat_natCast _
+theorem toNat_mul3 (a b : Nat) : ((a : Int) * (b : Int) * (b : Int)).toNat = a * b * b := by
+  rw [← Int.natCast_mul, ← Int.natCast_mul]; exact Int.toNat_natCast _
+theorem toNat_min (a b : Nat) : (min (a : Int) (b : Int)).toNat = min a b := by omega
+theorem toNat_max (a b : Nat) : (max (a : Int) (b : Int)).toNat = max a b := by omega
+
+/-- **bigBed summary update** with the source's expressions is `addSeg` -/
+theorem gen_bed_summary_step (st : Option Sm) (g : Seg) : addSegGen st g = addSeg st g := by
+  have h := fun a b => gen_bed_summary_atoms ((g.e - g.s : Nat) : Int) (g.d : Nat) a b
+  unfold addSegGen addSeg
+  cases st with
+  | none =>
+    simp only [(h _ _).1, (h _ _).2.1, (h _ _).2.2.1, (h _ _).2.2.2.1, (h _ _).2.2.2.2.1, Int.toNat_natCast, toNat_mul2, toNat_mul3]
+  | some t =>
+    simp only [(h _ _).2.2.2.2.2.1, (h _ _).2.2.2.2.2.2.1, (h _ _).2.2.2.2.2.2.2.1, (h _ _).2.2.2.2.2.2.2.2.1,
+      (h _ _).2.2.2.2.2.2.2.2.2, Int.toNat_natCast, toNat_mul2, toNat_mul3, toNat_min, toNat_max]
+
+theorem foldl_addSeg_some (l : List Seg) : ∀ (t : Sm), l.foldl addSeg (some t) =
+    some ⟨t.bases + (l.map fun g => g.e - g.s).sum, t.sum + (l.map fun g => (g.e - g.s) * g.d).sum,
+          t.sumsq + (l.map fun g => (g.e - g.s) * g.d * g.d).sum, (l.map (·.d)).foldl min t.mn, (l.map (·.d)).foldl max t.mx⟩ := by
+  induction l with
+  | nil => intro t; simp
+  | cons g rest ih =>
+    intro t
+    simp only [List.foldl_cons, addSeg, ih, List.map_cons, List.sum_cons]
+    congr 2 <;> omega
+
+/-- folding `addSeg` over the pieces of positive length a chromosome's sweep emits gives the chromosome summary `ofSegs` the
+    theorems of C06 are about (`C06_bed_bases_covered`, `…_sum`, `…_sum_squares`, `…_min_max`, the cross-chromosome merge) -/
+theorem foldl_addSeg_eq_ofSegs (l : List Seg) (hpos : ∀ g ∈ l, g.s < g.e) (hne : l ≠ []) :
+    l.foldl addSeg none = some (ofSegs l) := by
+  have hp : pos l = l := List.filter_eq_self.mpr (by intro g hg; simpa using hpos g hg)
+  cases l with
+  | nil => exact absurd rfl hne
+  | cons g rest =>
+    unfold ofSegs
+    rw [hp]
+    simp only [List.foldl_cons, addSeg, foldl_addSeg_some, List.map_cons, List.sum_cons, minD, maxD, Nat.zero_max]
+
+end BSUM
+
+namespace ST
+
+/-- the accumulation of `stats_for_bed_item` over one clipped value -/
+theorem gen_region_stats_atoms (n v a b : Int) :
+    Gen.st_bases_add n v a b = n ∧ Gen.st_sum_add n v a b = n * v ∧ Gen.st_min n v a b = min a v ∧ Gen.st_max n v a b = max b v := by
+  delta Gen.st_bases_add Gen.st_sum_add Gen.st_min Gen.st_max
+  refine ⟨?_, ?_, ?_, ?_⟩ <;> first | rfl | omega | grind
+
+end ST
